@@ -255,9 +255,96 @@ pub fn timeout_scenario(mode: &str, limit: Option<u64>) -> Scenario {
     }
 }
 
+/// The same on a sharded pool whose clients ask for replicas (two shards, one primary and one replica
+/// each): the waiter's timeout bans the only replica of shard 0; once the holder is done the shard must
+/// serve again ("all replicas of the shard are banned" lifts the bans), for old and new clients.
+pub fn timeout_scenario_sharded() -> Scenario {
+    let mut pool = PoolCfg::sharded("db", "transaction", 1, 2, 1, 1);
+    pool.extra = format!("{}default_role = \"replica\"\n", pool.extra);
+    let cfg = Cfg::one(pool);
+    let servers = cfg.servers();
+    let c0 = Script::new("c0")
+        .connect("alice", "db", Some("alicepw"))
+        .q("SET SHARD TO '0'")
+        .q(&format!("BEGIN /*{}*/", tag(0, 0, 0)))
+        .wait(Cond::TimeMs(13_000))
+        .q(&format!("COMMIT /*{}*/", tag(0, 0, 1)))
+        .terminate();
+    let c1 = Script::new("c1")
+        .connect("alice", "db", Some("alicepw"))
+        .q("SET SHARD TO '0'")
+        .wait(Cond::ActorAt(0, 5))
+        .q(&format!("SELECT 1 /*{}*/", tag(1, 0, 0)))
+        .wait(Cond::ActorsDone(vec![0]))
+        .q(&format!("SELECT 3 /*{}*/", tag(1, 2, 0)))
+        .q(&format!("SELECT 4 /*{}*/", tag(1, 3, 0)))
+        .terminate();
+    let c2 = Script::new("c2")
+        .wait(Cond::ActorsDone(vec![0, 1]))
+        .connect("alice", "db", Some("alicepw"))
+        .q("SET SHARD TO '0'")
+        .q(&format!("SELECT 5 /*{}*/", tag(2, 0, 0)))
+        .terminate();
+    let actors = vec![c0.actor(), c1.actor(), c2.actor()];
+    Scenario {
+        name: "C04 mode=transaction pool_size=1 progs=hold+wait-timeout-sharded-replicas".to_string(),
+        toml: cfg.toml(),
+        alt_tomls: vec![],
+        servers,
+        actors,
+        opts: Opts::default(),
+        meta: serde_json::json!({"must_serve": ["c1.t2.s0", "c1.t3.s0", "c2.t0.s0"]}),
+    }
+}
+
 pub fn oracle(sc: &Scenario, out: &Outcome) -> Vec<Violation> {
     let log = &out.log;
     let mut vs = Vec::new();
+    if let Some(ms) = sc.meta.get("must_serve").and_then(|m| m.as_array()) {
+        // statements sent when nothing is in use any more must be served
+        for t in ms {
+            let t = t.as_str().unwrap();
+            let ran = log.iter().any(|e| matches!(&e.rec, Rec::BExec { sql, .. } if sql.contains(t)));
+            if !ran {
+                let errs: Vec<String> = log
+                    .iter()
+                    .filter_map(|e| match &e.rec {
+                        Rec::CRecv { msg, .. } if msg.code == b'E' => msg.err_field(b'M'),
+                        _ => None,
+                    })
+                    .collect();
+                vs.push(v(
+                    "C04.capacity-lost",
+                    format!("C04.capacity-lost:{}", sc.name.split("progs=").nth(1).unwrap_or("")),
+                    format!("statement {} was sent when no server connection was in use any more and was not served; errors seen: {:?}", t, errs),
+                ));
+            }
+        }
+        // never more than pool_size connections per server
+        let mut open: BTreeMap<String, i64> = BTreeMap::new();
+        let mut server_of: BTreeMap<usize, String> = BTreeMap::new();
+        for e in log {
+            match &e.rec {
+                Rec::BAccept { conn, server } => {
+                    *open.entry(server.clone()).or_insert(0) += 1;
+                    server_of.insert(*conn, server.clone());
+                    if open[server] > 1 {
+                        vs.push(v("C04.pool-size", "C04.pool-size:sharded".to_string(), format!("{} has {} connections open with pool_size 1", server, open[server])));
+                    }
+                }
+                Rec::BClose { conn, .. } => {
+                    if let Some(sv) = server_of.get(conn) {
+                        *open.entry(sv.clone()).or_insert(0) -= 1;
+                    }
+                }
+                _ => {}
+            }
+        }
+        if out.blocked {
+            vs.push(v("C04.blocked", "C04.blocked:sharded".to_string(), blocked_note(log).unwrap_or_default()));
+        }
+        return vs;
+    }
     let pool_size: usize = sc.name.split_whitespace().find_map(|w| w.strip_prefix("pool_size=")).and_then(|x| x.parse().ok()).unwrap_or(1);
     let progs = sc.name.split_whitespace().find_map(|w| w.strip_prefix("progs=")).unwrap_or("").to_string();
     let mode = sc.name.split_whitespace().find_map(|w| w.strip_prefix("mode=")).unwrap_or("").to_string();
@@ -460,6 +547,7 @@ pub fn build(tier: &str) -> SimCheck {
         scenarios.push(timeout_scenario(mode, None));
         scenarios.push(timeout_scenario(mode, Some(2)));
     }
+    scenarios.push(timeout_scenario_sharded());
     scenarios.push(pause_scenario("transaction"));
     scenarios.push(pause_scenario("session"));
     SimCheck {
